@@ -1,8 +1,8 @@
 #!/bin/bash
-# usage: confirm_seed.sh <PROP> <k> : confirms seed k of /tmp/seed-<PROP> in its own worktree and stores it under /verif/seeded/<PROP>-<k>/
+# usage: confirm_seed.sh <PROP> <k> [worktree] [dest-name] : confirms seed k of /tmp/seed-<PROP> in its own worktree and stores it under /verif/seeded/<PROP>-<k>/
 # checks: patch applies; build ok; demo FAILS with the patch; demo PASSES without; full suite passes with the patch (known failures #1317-#1321 ignored)
 set -u
-P=$1; K=$2; WT=/tmp/seed-$P; S=$WT/SEED/$K
+P=$1; K=$2; WT=${3:-/tmp/seed-$P}; DEST=${4:-$P-$K}; S=$WT/SEED/$K
 export GOFLAGS=-mod=mod GOPROXY=off
 cd $WT || exit 2
 git checkout -q -- . ; find . -name 'zz_seed_demo_test.go' -delete
@@ -42,7 +42,7 @@ echo "$with" | grep -q "FAIL" || ok=0
 suite2=$(echo "$suite" | grep -v "^FAIL	mvdan.cc/sh/v3/interp" | grep -v "^FAIL$")
 [ -z "$suite2" ] || ok=0
 if [ $ok = 1 ]; then
-  d=/verif/seeded/$P-$K; mkdir -p $d
+  d=/verif/seeded/$DEST; mkdir -p $d
   cp $S/patch.diff $d/patch.diff; cp $S/demo_test.go $d/demo_test.go; cp $S/README.md $d/README.agent.md 2>/dev/null
   echo "CONFIRMED -> $d (demo pkg $pkgdir)"
   echo "$pkgdir" > $d/.pkg
